@@ -8,8 +8,10 @@ import (
 	"fmt"
 	"hash/fnv"
 	"os"
+	"runtime"
 	"sort"
 	"strings"
+	"sync"
 	"time"
 
 	"verifsim/core"
@@ -77,11 +79,113 @@ func classes(cs ...string) map[string]bool {
 func (s *Spec) relevant(vs []run.Violation) []run.Violation {
 	var out []run.Violation
 	for _, v := range vs {
-		if s.Classes[v.Class] {
+		if s.Classes[v.Class] || v.Class == "hang" {
 			out = append(out, v)
 		}
 	}
 	return out
+}
+
+// ---------------------------------------------------------------- hang watchdog
+
+// RunTimeout bounds the wall-clock time of one simulated run (a run normally
+// takes milliseconds; the slowest legitimate ones, with values of a megabyte,
+// a few seconds).  A run that is still executing nutsdb code after that is
+// reported as a violation of class "hang": some API call does not return.
+var RunTimeout = 60 * time.Second
+
+// OnHang, set by the worker command, receives the partial result of a worker
+// whose current run hangs inside nutsdb, writes it out and ends the process.
+var OnHang func(out *WorkerOut)
+
+// nutsdbFrame returns the innermost nutsdb function of the first goroutine
+// that is executing (or runnable in) nutsdb code, and that goroutine's stack.
+func nutsdbFrame(all string) (fn string, stack string) {
+	for _, blk := range strings.Split(all, "\n\n") {
+		if !strings.HasPrefix(blk, "goroutine ") {
+			continue
+		}
+		head := blk
+		if i := strings.IndexByte(blk, '\n'); i >= 0 {
+			head = blk[:i]
+		}
+		if !strings.Contains(head, "[running") && !strings.Contains(head, "[runnable") {
+			continue
+		}
+		for _, ln := range strings.Split(blk, "\n") {
+			if strings.HasPrefix(ln, "github.com/xujiajun/nutsdb") {
+				f := ln
+				if i := strings.LastIndexByte(f, '('); i > 0 {
+					f = f[:i]
+				}
+				return f, blk
+			}
+			if strings.HasPrefix(ln, "verifsim/") {
+				break // the harness is on top: not a hang inside the system under test
+			}
+		}
+	}
+	return "", ""
+}
+
+type runWatch struct {
+	mu    sync.Mutex
+	seed  uint64
+	run   int
+	p     *prog.Program
+	start time.Time
+	on    bool
+}
+
+func (w *runWatch) begin(seed uint64, run int, p *prog.Program) {
+	w.mu.Lock()
+	w.seed, w.run, w.p, w.start, w.on = seed, run, p, time.Now(), true
+	w.mu.Unlock()
+}
+
+func (w *runWatch) end() {
+	w.mu.Lock()
+	w.on = false
+	w.mu.Unlock()
+}
+
+// watch polls; when the current run exceeds RunTimeout and two stack samples
+// taken five seconds apart both show a goroutine inside nutsdb, the run is
+// recorded as a hang and OnHang ends the process.
+func (w *runWatch) watch(s *Spec, tier string, out *WorkerOut) {
+	for {
+		time.Sleep(2 * time.Second)
+		w.mu.Lock()
+		on, start, seed, runIdx, p := w.on, w.start, w.seed, w.run, w.p
+		w.mu.Unlock()
+		if !on || time.Since(start) < RunTimeout || OnHang == nil {
+			continue
+		}
+		sample := func() (string, string) {
+			buf := make([]byte, 1<<20)
+			return nutsdbFrame(string(buf[:runtime.Stack(buf, true)]))
+		}
+		f1, _ := sample()
+		time.Sleep(5 * time.Second)
+		w.mu.Lock()
+		still := w.on && w.run == runIdx
+		w.mu.Unlock()
+		f2, st := sample()
+		if !still || f1 == "" || f2 == "" {
+			continue
+		}
+		if len(st) > 3000 {
+			st = st[:3000]
+		}
+		v := run2Violation(fmt.Sprintf("a simulated run is still executing nutsdb code after %v of wall-clock time (innermost nutsdb frames: %s, then %s): some API call does not return\n%s", time.Since(start).Round(time.Second), f1, f2, st), f2)
+		out.Failures = append(out.Failures, Failure{Prop: s.ID, Seed: seed, Run: runIdx, Tier: tier, Program: p, Viol: []run.Violation{v}})
+		OnHang(out)
+		return
+	}
+}
+
+func run2Violation(msg, fn string) run.Violation {
+	return run.Violation{Class: "hang", StepID: -1, Op: -1, Msg: msg, Sig: "hang/" + fn}
 }
 
 func propHash(id string) uint64 {
@@ -147,6 +251,8 @@ func Worker(s *Spec, tier string, batch uint64, k, stride, maxRuns int, deadline
 	states := map[uint64]bool{}
 	scheds := map[uint64]bool{}
 	rw := globalRaceWatcher()
+	watch := &runWatch{}
+	go watch.watch(s, tier, out)
 	for i := k; maxRuns <= 0 || i < maxRuns; i += stride {
 		if time.Now().After(deadline) {
 			break
@@ -157,7 +263,9 @@ func Worker(s *Spec, tier string, batch uint64, k, stride, maxRuns int, deadline
 		if s.ExecTier != nil {
 			exec = s.ExecTier(tier)
 		}
+		watch.begin(seed, i, p)
 		res := exec(seed, p)
+		watch.end()
 		if rw != nil {
 			rv, total := rw.poll()
 			res.Viol = append(res.Viol, rv...)
